@@ -12,13 +12,17 @@ def main():
         for line in f:
             job = json.loads(line)
             try:
-                p = parser.parse(job["text"], schedule=job.get("schedule", True))
+                attr = job.get("attr", "effort")
+                # effort: as resolved after scheduling; start: as resolved by the model builder (scheduling writes computed dates there)
+                p = parser.parse(job["text"], schedule=(attr == "effort"))
                 nsc = p.scenarioCount()
                 eff = {}
                 for t in p.tasks:
                     row = []
                     for sc in range(nsc):
-                        v = t.get("effort", sc) or 0
+                        v = t.get(attr, sc) or 0
+                        if attr == "start":
+                            v = (v - p["start"]).total_seconds() if v else 0
                         row.append(float(v))
                     eff[t.fullId] = row
                 out.write(json.dumps({"id": job["id"], "eff": eff, "scen": [s.fullId.split(".")[-1] for s in p.scenarios]}) + "\n")
